@@ -540,7 +540,7 @@ func panicClass(v string) string {
 
 func fatalClass(out string) string {
 	switch {
-	case strings.Contains(out, "stack overflow") || strings.Contains(out, "goroutine stack exceeds"):
+	case strings.Contains(out, "stack overflow") || strings.Contains(out, "goroutine stack exceeds") || strings.Contains(out, "runtime.newstack()"):
 		return "stackoverflow"
 	case strings.Contains(out, "all goroutines are asleep"):
 		return "deadlock"
@@ -559,7 +559,7 @@ func fatalClass(out string) string {
 func hangSite(dump string) string {
 	blocks := strings.Split(dump, "\n\n")
 	for _, b := range blocks {
-		if !strings.Contains(b, "readline.(*Shell).Readline") {
+		if !strings.Contains(b, "readline.(*Shell).Readline") && !strings.Contains(b, "main.runParse") {
 			continue
 		}
 
